@@ -806,4 +806,456 @@ theorem load_caps_sub (E : Env) (cu0 : Option CU) (db : UsersDb) (hcu : CuOk cu0
       · exact (userFinish_dbinv E db.users _ j hj.db hj.cu).1
       · exact h1
 
+/-! ## whatever the file: loaded fields are line-safe, and a leftover record without id has no capability -/
+
+theorem fileLinesAux_noBreak (b : Bool) (t : Str) : ∀ l ∈ fileLinesAux b t, noBreak l := by
+  induction t generalizing b with
+  | nil => intro l hl; simp [fileLinesAux] at hl
+  | cons c cs ih =>
+    intro l hl
+    unfold fileLinesAux at hl
+    split at hl
+    · split at hl
+      · exact ih _ l hl
+      · rcases List.mem_cons.mp hl with rfl | hl
+        · intro x hx; cases hx
+        · exact ih _ l hl
+    · split at hl
+      · rcases List.mem_cons.mp hl with rfl | hl
+        · intro x hx; cases hx
+        · exact ih _ l hl
+      · rename_i h1 h2
+        split at hl
+        · simp only [List.mem_singleton] at hl
+          subst hl
+          intro x hx
+          simp only [List.mem_singleton] at hx
+          subst hx
+          simp [isBreak, h1, h2]
+        · rename_i l0 ls heq
+          rcases List.mem_cons.mp hl with rfl | hl
+          · intro x hx
+            rcases List.mem_cons.mp hx with rfl | hx
+            · simp [isBreak, h1, h2]
+            · exact ih false l0 (by rw [heq]; simp) x hx
+          · exact ih false l (by rw [heq]; simp [hl])
+
+theorem mem_expandTabsFrom (s : Str) (col : Nat) (c : Char) (h : c ∈ expandTabsFrom col s) : c = ' ' ∨ c ∈ s := by
+  induction s generalizing col with
+  | nil => simp [expandTabsFrom] at h
+  | cons x xs ih =>
+    unfold expandTabsFrom at h
+    split at h
+    · rcases List.mem_append.mp h with h | h
+      · left; exact (List.mem_replicate.mp h).2
+      · rcases ih _ h with h | h
+        · exact Or.inl h
+        · exact Or.inr (by simp [h])
+    · split at h <;>
+      · rcases List.mem_cons.mp h with rfl | h
+        · exact Or.inr (by simp)
+        · rcases ih _ h with h | h
+          · exact Or.inl h
+          · exact Or.inr (by simp [h])
+
+theorem parseLine_rest_noBreak (l : Str) (i : Nat) (k r : Str) (hl : noBreak l)
+    (h : parseLine l = .cmd i k r) : noBreak r := by
+  unfold parseLine at h
+  split at h
+  · cases h
+  · simp only [] at h
+    split at h
+    · rename_i command rest heq
+      injection h with _ _ hr
+      subst hr
+      -- `rest` is a sublist of the expanded line
+      unfold splitNone1 at heq
+      simp only [] at heq
+      split at heq
+      · cases heq
+      · split at heq
+        · cases heq
+        · injection heq with _ heq
+          injection heq with heq _
+          subst heq
+          intro c hc
+          have h1 : c ∈ expandTabs l := by
+            unfold lstripP at hc
+            have := List.dropWhile_sublist _ |>.subset hc
+            have := List.dropWhile_sublist _ |>.subset this
+            have := List.dropWhile_sublist _ |>.subset this
+            exact List.dropWhile_sublist _ |>.subset this
+          rcases mem_expandTabsFrom l 0 c h1 with rfl | h1
+          · decide
+          · exact hl c h1
+    · cases h
+
+theorem noBreak_nil : noBreak ([] : Str) := fun c hc => by cases hc
+
+theorem safeUser_default : SafeUser ({} : User) :=
+  ⟨noBreak_nil, noBreak_nil, fun c hc => (by cases hc), fun c hc => (by cases hc), fun c hc => (by cases hc),
+   fun c hc => (by cases hc)⟩
+
+structure SafeState (st : UState) : Prop where
+  users : ∀ p ∈ st.db.users, SafeUser p.2
+  cu : ∀ c, st.cu = some c → SafeUser c.u
+  cuok : CuOk st.cu
+
+theorem split1_eq {c : Char} {s a b : Str} (h : split1 c s = some (a, b)) : s = a ++ c :: b := by
+  induction s generalizing a with
+  | nil => simp [split1] at h
+  | cons x xs ih =>
+    unfold split1 at h
+    split at h
+    · rename_i hx
+      injection h with h
+      injection h with h1 h2
+      subst h1; subst h2; subst hx
+      rfl
+    · split at h
+      · cases h
+      · rename_i a' b' heq
+        injection h with h
+        injection h with h1 h2
+        subst h1; subst h2
+        rw [ih heq]
+        rfl
+
+theorem mem_splitChar {c : Char} (s p : Str) (hp : p ∈ splitChar c s) : ∀ x ∈ p, x ∈ s := by
+  induction s generalizing p with
+  | nil => simp [splitChar] at hp; subst hp; intro x hx; cases hx
+  | cons y ys ih =>
+    unfold splitChar at hp
+    split at hp
+    · rcases List.mem_cons.mp hp with rfl | hp
+      · intro x hx; cases hx
+      · intro x hx; exact List.mem_cons_of_mem _ (ih p hp x hx)
+    · split at hp
+      · simp only [List.mem_singleton] at hp
+        subst hp
+        intro x hx
+        simp only [List.mem_singleton] at hx
+        subst hx; simp
+      · rename_i q qs heq
+        rcases List.mem_cons.mp hp with rfl | hp
+        · intro x hx
+          rcases List.mem_cons.mp hx with rfl | hx
+          · simp
+          · exact List.mem_cons_of_mem _ (ih q (by rw [heq]; simp) x hx)
+        · intro x hx
+          exact List.mem_cons_of_mem _ (ih p (by rw [heq]; simp [hp]) x hx)
+
+theorem isCapability_clean {c : Str} (h : C03.isCapability c = true) : clean c = true := by
+  unfold C03.isCapability at h
+  simp only [Bool.and_eq_true, Bool.not_eq_true', List.isEmpty_eq_false_iff, List.all_eq_true] at h
+  obtain ⟨hne, hall⟩ := h
+  cases c with
+  | nil => exact absurd rfl hne
+  | cons x xs =>
+    have hx : isSpace x = false := by simpa using hall x (by simp)
+    simp only [clean, hx, Bool.not_false, Bool.true_and, noTabBreak, List.all_eq_true, Bool.and_eq_true,
+      bne_iff_ne, ne_eq]
+    intro y hy
+    have hy' : isSpace y = false := by simpa using hall y hy
+    refine ⟨⟨?_, ?_⟩, ?_⟩ <;> (intro e; subst e; revert hy'; decide)
+
+theorem invert_ok_isCapability {c i : Str} (h : C03.invertCapability c = .ok i) : C03.isCapability c = true := by
+  unfold C03.invertCapability at h
+  split at h
+  · cases h
+  · rename_i hc
+    simpa using hc
+
+/-- `UserCapabilitySet.add` keeps a list of clean lower-case words one -/
+theorem uadd_safe {caps caps' : List Str} {r : Str} (h : C03.uadd caps r = .ok caps')
+    (hc : ∀ c ∈ caps, clean c = true ∧ C03.toLower c = c) : ∀ c ∈ caps', clean c = true ∧ C03.toLower c = c := by
+  unfold C03.uadd at h
+  simp only [] at h
+  split at h
+  · cases h
+  · unfold C03.CapSet.add at h
+    simp only [] at h
+    split at h
+    · cases h
+    · rename_i inv hinv
+      injection h with h
+      subst h
+      intro c hc'
+      rcases (mem_capInsert _ _ _).mp hc' with rfl | hc'
+      · exact ⟨isCapability_clean (invert_ok_isCapability hinv), C03.toLower_idem _⟩
+      · exact hc c ((mem_capErase _ _ _).mp hc').1
+
+theorem safeUser_caps {u : User} (h : SafeUser u) (caps : List Str)
+    (hc : ∀ c ∈ caps, clean c = true ∧ C03.toLower c = c) : SafeUser { u with caps := caps } :=
+  ⟨h.name, h.password, hc, h.hostmasks, h.nicks, h.gpgkeys⟩
+
+theorem withCu_safe (st : UState) (f : CU → CU × Option Err) (h : SafeState st)
+    (hf : ∀ c, SafeUser c.u → SafeUser (f c).1.u) (hid : ∀ c, (f c).1.id = c.id) : SafeState (withCu st f).1 := by
+  unfold withCu
+  split
+  · exact h
+  · rename_i cu hcu
+    split
+    · exact h
+    · rename_i hidn
+      refine ⟨h.users, ?_, ?_⟩
+      · intro c hc
+        simp only [Option.some.injEq] at hc
+        subst hc
+        exact hf cu (h.cu cu hcu)
+      · intro c hc hnone
+        simp only [Option.some.injEq] at hc
+        subst hc
+        rw [hid] at hnone
+        simp [hnone] at hidn
+
+theorem userCall_safe (st : UState) (k r : Str) (h : SafeState st) (hr : noBreak r) :
+    SafeState (userCall st k r).1 := by
+  have hrc : noBreak (lfCore r) := by rw [(lfCore_of_noBreak hr).1]; exact hr
+  unfold userCall
+  by_cases h0 : k = kwUser
+  · rw [if_pos h0]
+    cases hc : st.cu with
+    | none => exact h
+    | some cu =>
+      simp only []
+      split
+      · exact h
+      · split
+        · refine ⟨h.users, ?_, ?_⟩
+          · intro c hc'; simp only [Option.some.injEq] at hc'; subst hc'; exact h.cu cu hc
+          · intro c hc' hn; simp only [Option.some.injEq] at hc'; subst hc'; simp at hn
+        · exact h
+  rw [if_neg h0]
+  have bf : ∀ (g : User → Bool → User), (∀ u b, SafeUser u → SafeUser (g u b)) →
+      SafeState (withCu st (fun cu => boolField cu r g)).1 := by
+    intro g hg
+    refine withCu_safe st _ h ?_ ?_
+    · intro c hc; unfold boolField; split
+      · exact hg _ _ hc
+      · exact hc
+    · intro c; unfold boolField; split <;> rfl
+  by_cases h1 : k = kwName
+  · rw [if_pos h1]
+    exact withCu_safe st _ h (fun c hc => ⟨hr, hc.password, hc.caps, hc.hostmasks, hc.nicks, hc.gpgkeys⟩) (fun _ => rfl)
+  rw [if_neg h1]
+  by_cases h2 : k = kwIgnore
+  · rw [if_pos h2]
+    exact bf _ (fun u b hu => ⟨hu.name, hu.password, hu.caps, hu.hostmasks, hu.nicks, hu.gpgkeys⟩)
+  rw [if_neg h2]
+  by_cases h3 : k = kwSecure
+  · rw [if_pos h3]
+    exact bf _ (fun u b hu => ⟨hu.name, hu.password, hu.caps, hu.hostmasks, hu.nicks, hu.gpgkeys⟩)
+  rw [if_neg h3]
+  by_cases h4 : k = kwHashed
+  · rw [if_pos h4]
+    exact bf _ (fun u b hu => ⟨hu.name, hu.password, hu.caps, hu.hostmasks, hu.nicks, hu.gpgkeys⟩)
+  rw [if_neg h4]
+  by_cases h5 : k = kwPassword
+  · rw [if_pos h5]
+    exact withCu_safe st _ h (fun c hc => ⟨hc.name, hr, hc.caps, hc.hostmasks, hc.nicks, hc.gpgkeys⟩) (fun _ => rfl)
+  rw [if_neg h5]
+  by_cases h6 : k = kwHostmask
+  · rw [if_pos h6]
+    refine withCu_safe st _ h (fun c hc => ⟨hc.name, hc.password, hc.caps, ?_, hc.nicks, hc.gpgkeys⟩) (fun _ => rfl)
+    intro x hx
+    simp only [setRec, ircSetAdd] at hx
+    split at hx
+    · exact hc.hostmasks x hx
+    · rcases List.mem_append.mp hx with hx | hx
+      · exact hc.hostmasks x hx
+      · simp only [List.mem_singleton] at hx; subst hx; exact hrc
+  rw [if_neg h6]
+  by_cases h7 : k = kwNicks
+  · rw [if_pos h7]
+    refine withCu_safe st _ h ?_ ?_
+    · intro c hc
+      split
+      · exact hc
+      · rename_i net nicks heq
+        have hsplit := split1_eq heq
+        refine ⟨hc.name, hc.password, hc.caps, hc.hostmasks, ?_, hc.gpgkeys⟩
+        intro p hp
+        rcases mem_dictSet' hp with rfl | hp
+        · refine ⟨fun x hx => hr x (by rw [hsplit]; simp [hx]), ?_⟩
+          intro n hn x hx
+          exact hr x (by rw [hsplit]; simp [mem_splitChar nicks n hn x hx])
+        · exact hc.nicks p hp
+    · intro c; split <;> rfl
+  rw [if_neg h7]
+  by_cases h8 : k = kwCapability
+  · rw [if_pos h8]
+    refine withCu_safe st _ h ?_ (fun _ => rfl)
+    intro c hc
+    simp only []
+    refine safeUser_caps hc _ ?_
+    unfold userCapAdd liftR
+    split
+    · rename_i caps' hadd
+      exact uadd_safe hadd hc.caps
+    · exact hc.caps
+  rw [if_neg h8]
+  by_cases h9 : k = kwGpgkey
+  · rw [if_pos h9]
+    refine withCu_safe st _ h (fun c hc => ⟨hc.name, hc.password, hc.caps, hc.hostmasks, hc.nicks, ?_⟩) (fun _ => rfl)
+    intro x hx
+    simp only [setRec] at hx
+    rcases List.mem_append.mp hx with hx | hx
+    · exact hc.gpgkeys x hx
+    · simp only [List.mem_singleton] at hx; subst hx; exact hr
+  rw [if_neg h9]
+  split <;> exact h
+
+theorem removeHostmask_safe {u : User} (h : SafeUser u) (pat : Str) : SafeUser (removeHostmask u pat) :=
+  ⟨h.name, h.password, h.caps, fun x hx => h.hostmasks x (List.mem_filter.mp hx).1, h.nicks, h.gpgkeys⟩
+
+theorem getUserId_safe (E : Env) (users : List (Nat × User)) (s : Str) (h : ∀ p ∈ users, SafeUser p.2) :
+    ∀ q ∈ (getUserId E users s).1, SafeUser q.2 := by
+  intro q hq
+  unfold getUserId at hq
+  split at hq
+  · simp only [] at hq
+    split at hq
+    · exact h q hq
+    · exact h q hq
+    · simp only [List.mem_map] at hq
+      obtain ⟨p, hp, rfl⟩ := hq
+      split
+      · exact removeHostmask_safe (h p hp) _
+      · exact h p hp
+  · split at hq <;> exact h q hq
+
+theorem setUser_safe (E : Env) (db : UsersDb) (id : Nat) (u : User) (h : ∀ p ∈ db.users, SafeUser p.2)
+    (hu : SafeUser u) : ∀ p ∈ (setUser E db id u).1.users, SafeUser p.2 := by
+  have hget := getUserId_safe E db.users u.name h
+  have hput : ∀ p ∈ dictSet id u (getUserId E db.users u.name).1, SafeUser p.2 := by
+    intro p hp
+    rcases mem_dictSet' hp with rfl | hp
+    · exact hu
+    · exact hget p hp
+  unfold setUser
+  split
+  · exact h
+  · simp only []
+    split
+    · exact hget
+    · split
+      · exact hget
+      · split
+        · exact hget
+        · exact hput
+    · split
+      · exact hget
+      · exact hput
+
+theorem userFinish_safe (E : Env) (st : UState) (h : SafeState st) : SafeState (userFinish E st).1 := by
+  unfold userFinish
+  cases hc : st.cu with
+  | none => exact h
+  | some cu =>
+    simp only []
+    have hcu := h.cu cu hc
+    split
+    · exact h
+    · split
+      · exact h
+      · rename_i id hid
+        have h1 := setUser_safe E st.db id cu.u h.users hcu
+        have hcl : SafeUser { cu.u with hostmasks := [] } :=
+          ⟨hcu.name, hcu.password, hcu.caps, fun x hx => (by cases hx), hcu.nicks, hcu.gpgkeys⟩
+        have h2 := setUser_safe E (setUser E st.db id cu.u).1 id { cu.u with hostmasks := [] } h1 hcl
+        split
+        · exact ⟨h1, fun c hc' => (by simp at hc'), fun c hc' => (by simp at hc')⟩
+        · split
+          · exact ⟨h2, fun c hc' => (by simp at hc'), fun c hc' => (by simp at hc')⟩
+          · refine ⟨h2, ?_, ?_⟩
+            · intro c hc'
+              simp only [Option.some.injEq] at hc'
+              subst hc'
+              exact hcl
+            · intro c hc' hn
+              simp only [Option.some.injEq] at hc'
+              subst hc'
+              simp [hid] at hn
+        · refine ⟨h1, ?_, ?_⟩
+          · intro c hc'
+            simp only [Option.some.injEq] at hc'
+            subst hc'
+            exact hcu
+          · intro c hc' hn
+            simp only [Option.some.injEq] at hc'
+            subst hc'
+            simp [hid] at hn
+
+theorem userNew_safe (st : UState) (h : SafeState st) : SafeState (userNew st) := by
+  unfold userNew
+  split
+  · refine ⟨h.users, ?_, ?_⟩
+    · intro c hc; simp only [Option.some.injEq] at hc; subst hc; exact safeUser_default
+    · intro c hc _; simp only [Option.some.injEq] at hc; subst hc; rfl
+  · exact h
+
+theorem reindent_safe (E : Env) (rs : RState UState) (ind : Nat) (h : SafeState rs.st) :
+    SafeState (reindent (userCreator E) rs ind).1.st := by
+  unfold reindent
+  split
+  · exact h
+  · have e1 : (userCreator E).finish rs.st = userFinish E rs.st := rfl
+    have e2 : ∀ s, (userCreator E).new s = userNew s := fun _ => rfl
+    rw [e1]
+    simp only [e2]
+    have hf : SafeState (if rs.hasCreator = true then userFinish E rs.st else (rs.st, none)).1 := by
+      split
+      · exact userFinish_safe E rs.st h
+      · exact h
+    generalize (if rs.hasCreator = true then userFinish E rs.st else (rs.st, none)) = r at hf ⊢
+    split
+    · exact hf
+    · exact userNew_safe _ hf
+
+theorem readParsed_safe (E : Env) (rs : RState UState) (P : Parsed) (h : SafeState rs.st)
+    (hP : ∀ i k r, P = .cmd i k r → noBreak r) : SafeState (readParsed (userCreator E) rs P).1.st := by
+  unfold readParsed
+  cases P with
+  | blank => exact h
+  | bad i =>
+    simp only []
+    have := reindent_safe E rs i h
+    split <;> exact this
+  | cmd i k r =>
+    simp only []
+    have hr := reindent_safe E rs i h
+    split
+    · exact hr
+    · exact userCall_safe _ k r hr (hP i k r rfl)
+
+theorem readLines_safe (E : Env) (rs : RState UState) (ls : List Str) (h : SafeState rs.st)
+    (hl : ∀ l ∈ ls, noBreak l) : SafeState (readLines (userCreator E) rs ls).1.st := by
+  induction ls generalizing rs with
+  | nil => exact h
+  | cons l ls ih =>
+    have h1 := readParsed_safe E rs (parseLine l) h
+      (fun i k r hp => parseLine_rest_noBreak l i k r (hl l (by simp)) hp)
+    unfold readLines
+    simp only []
+    split
+    · exact h1
+    · exact ih _ h1 (fun x hx => hl x (by simp [hx]))
+
+/-- **Whatever the file**, every field of every loaded account is free of line breaks, every
+loaded capability is a clean lower-case word, and a record left in the class attribute without an
+id carries no capability. -/
+theorem load_safe (E : Env) (cu0 : Option CU) (text : Str)
+    (h0 : ∀ c, cu0 = some c → SafeUser c.u) (hcu : CuOk cu0) :
+    SafeState (loadUsers E cu0 text).1 := by
+  unfold loadUsers readText
+  have hs : SafeState (⟨cu0, {}⟩ : UState) := ⟨fun p hp => (by cases hp), h0, hcu⟩
+  have hl := readLines_safe E { st := ⟨cu0, {}⟩ } (fileLines text) hs (fileLinesAux_noBreak false text)
+  simp only []
+  split
+  · exact hl
+  · split
+    · exact userFinish_safe E _ hl
+    · exact hl
+
 end C16
